@@ -339,6 +339,8 @@ func newEnvPickler() pickle.Pickler {
 //   ("abc".upper, xs.append) as (NEWOBJ "dawn" "Builtin" (name, receiver))
 // - Function code is pickled as (NEWOBJ "dawn" "FunctionCode" (module, globals, bytecode))
 // - Functions are pickled as (NEWOBJ "dawn" "Function" (defaults, freevars, code, parameters)).
+// - Ranges and the views returned by string and bytes methods are pickled as
+//   (NEWOBJ "dawn" "Iterable" (type, printed form)).
 func envPickler(x starlark.Value) (module, name string, args starlark.Tuple, err error) {
 	switch x := x.(type) {
 	case *function:
@@ -354,6 +356,15 @@ func envPickler(x starlark.Value) (module, name string, args starlark.Tuple, err
 	case *starlark.Function:
 		defaults, freevars := x.Env()
 		return "dawn", "Function", starlark.Tuple{optionalDefaults(defaults), freevars, x.Code(), parameters(x)}, nil
+	case *starlark.List, starlark.Mapping:
+		return "", "", nil, pickle.ErrCannotPickle
+	case starlark.Iterable:
+		// Iterable values other than the containers the pickler knows: range(...), "s".elems(),
+		// "s".codepoints() and their kin. The pickler would write a plain list for those that are
+		// sequences - so that range(3) and [0, 1, 2] had one fingerprint, and a long range took as
+		// much space as its elements - and cannot write the others at all. Their printed form
+		// determines them.
+		return "dawn", "Iterable", starlark.Tuple{starlark.String(x.Type()), starlark.String(x.String())}, nil
 	default:
 		return "", "", nil, pickle.ErrCannotPickle
 	}
@@ -392,6 +403,8 @@ func optionalDefaults(defaults starlark.Tuple) starlark.Tuple {
 //     from (NEWOBJ "dawn" "Builtin" (name, receiver)) into (name, receiver)
 //   - Function code is unpickled from (NEWOBJ "dawn" "FunctionCode" (module, globals, bytecode))
 //     into a dictionary.
+//   - Ranges and string views are unpickled from (NEWOBJ "dawn" "Iterable" (type, printed form))
+//     into (type, printed form).
 //   - Functions are unpickled from (NEWOBJ "dawn" "Function" (defaults, freevars, code, parameters))
 //     into a dictionary.
 func envUnpickler(module, name string, args starlark.Tuple) (starlark.Value, error) {
@@ -422,6 +435,11 @@ func envUnpickler(module, name string, args starlark.Tuple) (starlark.Value, err
 		default:
 			return nil, fmt.Errorf("expected at most 2 args, got %v", len(args))
 		}
+	case "Iterable":
+		if len(args) != 2 {
+			return nil, fmt.Errorf("expected 2 args, got %v", len(args))
+		}
+		return args, nil
 	case "FunctionCode":
 		if len(args) != 3 {
 			return nil, fmt.Errorf("expcted 3 args, got %v", len(args))
